@@ -75,6 +75,11 @@ func SchemaFromDDL(ddl string) (*Schema, error) {
 				sc.TypeProblems = append(sc.TypeProblems, fmt.Sprintf("%s.%s %s", s.Table, cd.Name, cd.Type))
 				srt = SOptS
 			}
+			if cd.Collate != "" && cd.Collate != "BINARY" && cd.Collate != `"C"` && cd.Collate != "C" {
+				// a collation other than the binary one makes comparisons (and UNIQUE) on the column inexact:
+				// ids that differ in case or trailing blanks become the same row
+				sc.TypeProblems = append(sc.TypeProblems, fmt.Sprintf("%s.%s COLLATE %s", s.Table, cd.Name, cd.Collate))
+			}
 			t.Cols = append(t.Cols, Column{Name: cd.Name, Sort: srt, SQLType: cd.Type, Default: cd.Default, AutoInc: cd.AutoInc, Unique: cd.Unique || cd.Primary})
 		}
 		if k, ok := keyColumns[t.Name]; ok {
